@@ -305,7 +305,7 @@ func cmdTraces(args []string) {
 			}
 		}
 		if k > 0 {
-			enc.Encode(sim.Event{Ev: "Reset", Trace: k, Em: []sim.Em{}, Post: sim.Post{Culp: []string{}}})
+			enc.Encode(sim.Event{Ev: "Reset", Trace: k, Em: []sim.Em{}, Post: sim.Post{Culp: []string{}}, Res: "none"})
 			lines++
 		}
 		for _, ev := range r.Engine.Events {
